@@ -7,7 +7,7 @@
 import concurrent.futures, glob, hashlib, json, os, re, shutil, subprocess, sys, time
 
 VERIF = os.path.dirname(os.path.dirname(os.path.abspath(__file__)))
-REPO = '/repo'
+REPO = os.environ.get('VERIF_REPO', '/repo')   # VERIF_REPO: sweeps over snapshots only; registered commands use /repo
 HARNESS = f'{VERIF}/harness'
 LEAN = f'{VERIF}/lean'
 WORK = f'{HARNESS}/work'
